@@ -163,7 +163,14 @@ def root_directory(ctx, forest):
     """-execdir ... {} + on the starting point "/" (an entry without a parent directory): run, from "/", not dropped and not merged
     into the batch of the next starting point"""
     os.mkdir(os.path.join(forest.dir, b"rt"))
-    for args, want in (([b"/", b"-maxdepth", b"0"], [(b"/", [b"/"])]),
+    os.mkdir(os.path.join(forest.dir, b"rt", b"in"))
+    os.symlink(b"rt", os.path.join(forest.dir, b"rl"))
+    rt = os.path.join(forest.dir, b"rt")
+    for args, want in (([b"/", b"-maxdepth", b"1", b"(", b"-name", b"tmp", b"-o", b"-name", b"/", b")"], [(b"/", [b"/"]), (b"/", [b"./tmp"])]),
+                       # the directory and the name are taken from the path as spelled: "rl/." is "./." in rl (not "./rl", the link, one level up)
+                       ([b"rl/.", b"-maxdepth", b"0"], [(rt, [b"./."])]), ([b"rt/.", b"-sorted"], [(rt, [b"./."]), (rt, [b"./in"])]),
+                       ([b"rt/in/..", b"-maxdepth", b"0"], [(os.path.join(rt, b"in"), [b"./.."])]),
+                       ([b"/", b"-maxdepth", b"0"], [(b"/", [b"/"])]),
                        ([b"rt", b"/", b"-maxdepth", b"0"], [(forest.dir, [b"./rt"]), (b"/", [b"/"])]),
                        ([b"/", b"rt", b"-maxdepth", b"0"], [(b"/", [b"/"]), (forest.dir, [b"./rt"])])):
         rec = os.path.join(forest.dir, b"recroot")
@@ -176,9 +183,9 @@ def root_directory(ctx, forest):
         if os.path.exists(rec):
             for line in open(rec):
                 parts = line.split()
-                got.append((os.path.normpath(fw.unhex(parts[0])), [fw.unhex(x) for x in parts[1:]]))
+                got.append((os.path.realpath(fw.unhex(parts[0])), [fw.unhex(x) for x in parts[1:]]))
         ctx.count(("root-directory", tuple(args)), True, "root-directory")
-        if got != [(os.path.normpath(c), a) for c, a in want] or p.returncode != 0:
+        if got != [(os.path.realpath(c), a) for c, a in want] or p.returncode != 0:
             ctx.violation("find %s -execdir CMD {} +: invocations %r (exit %d); expected %r" % (b" ".join(args).decode(), got, p.returncode, want),
                           {"property": "C08", "kind": "root-directory", "find_args": [a.decode() for a in args], "exit": p.returncode,
                            "invocations": [[c.decode(), [x.decode() for x in a]] for c, a in got]})
